@@ -9,7 +9,7 @@
 From Coq Require Import List ZArith NArith Bool Arith Lia.
 Import ListNotations.
 From DD Require Import Base.Sx Base.PyStr Base.Value Base.ValueFacts Path.PathModel Diff.Tree Diff.DiffModel
-  Diff.DiffFaithful Delta.DeltaModel Delta.DeltaVerify Delta.DeltaVerifyIndep Delta.DeltaReverse Delta.DeltaReverseDiff Delta.DeltaReverseSym Delta.DeltaReverseDefault Delta.DeltaReverseInplace Diff.DiffPaths.
+  Diff.DiffFaithful Delta.DeltaModel Delta.DeltaVerify Delta.DeltaVerifyIndep Delta.DeltaReverse Delta.DeltaReverseDiff Delta.DeltaReverseSym Delta.DeltaReverseDefault Delta.DeltaReverseInplace Diff.DiffPaths Delta.DeltaGuard Delta.DeltaChain Delta.DeltaHyp.
 
 Definition ops_table_disjointb (tbl : list (path * list opcode)) : bool :=
   forallb (fun pe => ops_ok 0 (snd pe)) tbl.
@@ -171,3 +171,9 @@ Definition sx_c08hyp6 (indep disj sym kn ko nc : bool) : sx :=
 
 Definition sx_c08hyp (indep disj sym kn : bool) : sx := SL [sx_bool indep; sx_bool disj; sx_bool sym; sx_bool kn].
 Definition sx_c08hyp5 (indep disj sym kn ko : bool) : sx := SL [sx_bool indep; sx_bool disj; sx_bool sym; sx_bool kn; sx_bool ko].
+
+(* round 3: + the order oracles sort the lists of the REVERSED delta ([orders_ok_at ro ao (reverse d)], guard of
+   C08_sub_inverts_from / C08_back_and_forth_default), + ordfree t1, ordfree t2 (the exact-equality fragment) *)
+Definition sx_c08hyp11 (indep disj sym kn ko nc nt s2 ordr of1 of2 : bool) : sx :=
+  SL [sx_bool indep; sx_bool disj; sx_bool sym; sx_bool kn; sx_bool ko; sx_bool nc; sx_bool nt; sx_bool s2;
+      sx_bool ordr; sx_bool of1; sx_bool of2].
